@@ -18,13 +18,17 @@ log = logging.getLogger(__name__)
 
 class CyclicReference(LeafNode):
     def __init__(self, obj):
+        if isinstance(obj, IdentityHash):
+            # copying this node passes the wrapper (LeafNode.copy_from); do not wrap it a second time
+            obj = obj.obj
         super().__init__(IdentityHash(obj))
 
     def __hash__(self):
-        return id(self.object)
+        return hash(self.object)
 
     def __eq__(self, other):
-        return isinstance(other, CyclicReference) and other.object is self.object
+        # two references are equal if they refer to the same object, not if they share the wrapper allocated for it
+        return isinstance(other, CyclicReference) and other.object == self.object
 
 
 class Builder(ABC):
